@@ -134,19 +134,18 @@ class DSDLDefinition(ReadableDSDLFile):
         parts = list(dsdl_path.parent.parts)
         if not dsdl_path.is_absolute() and not (found_as_given and any(x in root_parts for x in parts)):
             for path_to_root in valid_dsdl_roots:
-                path_to_root_parent = path_to_root
-                while path_to_root_parent != path_to_root_parent.parent:
-                    # Weld together and check only if the root's last part is the same name as the target's first part.
-                    # yes:
-                    #     path/to/root + root/then/Type.1.0.dsdl <- /root == root/
-                    # no:
-                    #     path/to/not_root + root/then/Type.1.0.dsdl <- /not_root != root/
-                    if (
-                        path_to_root_parent.parts[-1] == dsdl_path.parts[0]
-                        and (path_to_root_parent.parent / dsdl_path).exists()
-                    ):
-                        return path_to_root_parent
-                    path_to_root_parent = path_to_root_parent.parent
+                # Weld together and check only if the root's last part is the same name as the target's first part.
+                # yes:
+                #     path/to/root + root/then/Type.1.0.dsdl <- /root == root/
+                # no:
+                #     path/to/not_root + root/then/Type.1.0.dsdl <- /not_root != root/
+                # The parents of a root are not roots: welding the target onto one of them would name the type wrongly.
+                if (
+                    path_to_root.parts
+                    and path_to_root.parts[-1] == dsdl_path.parts[0]
+                    and (path_to_root.parent / dsdl_path).exists()
+                ):
+                    return path_to_root
         if lexical_match is not None:
             return lexical_match
 
